@@ -37,6 +37,7 @@ def replay_concrete(hmod, cfg, inputs, wall_s=60, complete=False):
     conc = ConcCtx(inputs, complete=complete)
     shims.set_ctx(conc)
     shims.rng_fresh()
+    shims.restore_state()
     res = {"status": "ok", "failures": [], "observations": None}
 
     def _alarm(signum, frame):
@@ -145,9 +146,13 @@ def _observations_agree(E, sym_obs, conc_obs, model):
     return None
 
 
-def _worker(hname, cfgs, opts, tasks, results, widx, stop_flags=None, path_counts=None):
+def _worker(hname, cfgs, opts, tasks, results, widx, stop_flags=None, path_counts=None, beat=None):
     try:
         signal.signal(signal.SIGINT, signal.SIG_IGN)
+        if beat is not None:
+            def _hb():
+                beat[widx] = time.time()
+            eng.HEARTBEAT[0] = _hb
         hmod = importlib.import_module("harness." + hname)
         mods = shims.load_pyxab()
         if hasattr(hmod, "setup"):
@@ -160,7 +165,11 @@ def _worker(hname, cfgs, opts, tasks, results, widx, stop_flags=None, path_count
         stats = {}
         t_deadline = opts.get("deadline")
         while True:
+            if beat is not None:
+                beat[widx] = 0.0  # idle
             item = tasks.get()
+            if beat is not None:
+                beat[widx] = time.time()
             if item is None:
                 tasks.task_done()
                 break
@@ -179,9 +188,12 @@ def _worker(hname, cfgs, opts, tasks, results, widx, stop_flags=None, path_count
                         st.counters["deadline_dropped"] = st.counters.get("deadline_dropped", 0) + len(stack)
                         break
                     pfx, mb = stack.pop()
+                    if beat is not None:
+                        beat[widx] = time.time()
                     cx = SymCtx(E, known_labels=set(st.cands.keys()))
                     shims.set_ctx(cx)
                     shims.rng_fresh()
+                    shims.restore_state()
                     ufmodel.reset()
 
                     def fn(E_, cx=cx, cfg=cfg, st=st):
@@ -379,33 +391,73 @@ def run_harness(hname, tier="quick", seed=0, only=None):
     budget = getattr(hmod, "WALL_BUDGET_S", {}).get(tier)
     if budget:
         opts["deadline"] = t0 + budget
-    tasks = mp.JoinableQueue()
-    results = mp.Queue()
     order = sorted(range(len(cfgs)), key=lambda i: -cfgs[i].get("cost", 1))
-    for i in order:
-        tasks.put((i, [], False))
-    stop_flags = mp.Array("b", len(cfgs), lock=False)
-    path_counts = mp.Array("i", len(cfgs), lock=False)
-    procs = [mp.Process(target=_worker, args=(hname, cfgs, opts, tasks, results, w, stop_flags, path_counts), daemon=True) for w in range(NPROC)]
-    for p in procs:
-        p.start()
-    tasks.join()
-    for p in procs:
-        tasks.put(None)
-    outs = []
-    errors = []
-    for _ in procs:
-        try:
-            kind, widx, out, es = results.get(timeout=600)
-        except _q.Empty:
-            errors.append("worker result missing")
-            continue
-        if kind == "error":
-            errors.append(out)
-        else:
-            outs.append((out, es))
-    for p in procs:
-        p.join(timeout=10)
+    stall_s = max(300.0, 20.0 * opts["timeout_ms"] / 1000.0)
+    restarts = []
+
+    def explore_once():
+        """one supervised exploration; returns (outs, errors) or a string saying why it has to be repeated: a worker
+        that dies (a crash inside the solver library) or sits in one solver call far beyond its time limit would
+        leave tasks.join() waiting for ever and take the results it holds with it"""
+        import threading
+        tasks = mp.JoinableQueue()
+        results = mp.Queue()
+        for i in order:
+            tasks.put((i, [], False))
+        stop_flags = mp.Array("b", len(cfgs), lock=False)
+        path_counts = mp.Array("i", len(cfgs), lock=False)
+        beat = mp.Array("d", NPROC, lock=False)
+        procs = [mp.Process(target=_worker, args=(hname, cfgs, opts, tasks, results, w, stop_flags, path_counts, beat), daemon=True) for w in range(NPROC)]
+        for p in procs:
+            p.start()
+        joined = threading.Event()
+
+        def _join():
+            tasks.join()
+            joined.set()
+
+        threading.Thread(target=_join, daemon=True).start()
+        problem = None
+        while not joined.wait(1.0):
+            now = time.time()
+            for w, p in enumerate(procs):
+                if not p.is_alive():
+                    problem = "worker %d died (exit code %s)" % (w, p.exitcode)
+                elif beat[w] and now - beat[w] > stall_s:
+                    problem = "worker %d made no progress for %ds (stuck in a solver call)" % (w, int(now - beat[w]))
+            if problem:
+                for p in procs:
+                    if p.is_alive():
+                        p.kill()
+                for p in procs:
+                    p.join(timeout=5)
+                return problem
+        for p in procs:
+            tasks.put(None)
+        outs, errors = [], []
+        for _ in procs:
+            try:
+                kind, widx, out, es = results.get(timeout=600)
+            except _q.Empty:
+                errors.append("worker result missing")
+                continue
+            if kind == "error":
+                errors.append(out)
+            else:
+                outs.append((out, es))
+        for p in procs:
+            p.join(timeout=10)
+        return outs, errors
+
+    for attempt in range(3):
+        got = explore_once()
+        if not isinstance(got, str):
+            outs, errors = got
+            break
+        restarts.append(got)
+        sys.stderr.write("driver: %s - exploration restarted from scratch (attempt %d)\n" % (got, attempt + 2))
+    else:
+        outs, errors = [], ["exploration abandoned after 3 attempts: " + "; ".join(restarts)]
 
     # ---- merge
     merged = {}
@@ -615,6 +667,7 @@ def run_harness(hname, tier="quick", seed=0, only=None):
             "reachability_twins_failed_as_expected": len(twins_ok),
             "known_findings_hit": sorted(seen),
             "unreplayed_counterexamples": len(unreplayed),
+            "exploration_restarts": restarts,
             "per_config": per_cfg if len(per_cfg) <= 400 else {"note": "%d configs" % len(per_cfg)},
             "extra": getattr(hmod, "EXTRA_EVIDENCE", {}),
             "lemmas": [{k: v for k, v in r.items() if k != "detail" or r["status"] != "holds"} for r in lemma_results],
